@@ -87,6 +87,17 @@ reg(
     "calibrated covariances whose scale estimate is rounding noise are not judged (counted in evidence).",
 )
 
+reg(
+    "C03",
+    "reference-model monitor: 50-digit RTS smoother over recorded step ends united with output times vs the three smoother routes (recording proxies give the complete accepted-step sequence); joint/cross-covariance identities from the returned backward kernels",
+    "Fixed-interval on fixed grids, fixed-interval on adaptive save-every-step runs (last step overshooting or landing on the "
+    "final time) and fixed-point with checkpoints are run on random polynomial IVPs x factorisation x calibration x TS0/TS1; "
+    "every returned marginal, the terminal-equals-filtering clause, smoothed<=filtered variances, the marginals and "
+    "cross-covariances implied by the returned backward Markov factorisation, and fixed-interval vs fixed-point on the same "
+    "step grid are compared with the reference (1e-7 scaled, rounding-aware).",
+    "Trusted: pdv/refmodel/{kalman,rtsref}.py; the recorded filtering marginals are inputs (their correctness is C02).",
+)
+
 NOT_BUILT_REASON = "check under construction in this session; not yet registered"
 
 
